@@ -242,6 +242,50 @@ export async function run(ctx) {
     }
   }
 
+  // encoding-boundary twins: two types that differ only in WHERE a piece sits (an index signature on
+  // the inner or the outer object, a property, a union member or a tuple element one level up or
+  // down, text split differently between a key and the next one): the canonical encoding has to be
+  // uniquely decodable across nesting levels, so their digests must differ (they disagree on the
+  // witness value)
+  if (ctx.shard === 2 % ctx.of) {
+    const V = ["string", "number", '"v"', "{ q: 1 }"];
+    const twins = [];
+    for (const v of V) {
+      twins.push([`{ id: string; k: { a: number; [x: string]: ${v} } }`, `{ id: string; k: { a: number }; [x: string]: ${v} | string | { a: number } }`, { id: "i", k: { a: 1, zz: [] } }]);
+      twins.push([`{ id: string; k: { a: number; [x: string]: ${v} } }`, `{ id: string; k: { a: number }; [x: string]: ${v} }`, { id: "i", k: { a: 1, zz: [] } }]);
+      twins.push([`{ a: string; z?: Array<Record<string, ${v}>> }`, `{ a: string; z?: Array<{}>; [x: string]: ${v} }`, { a: "s", z: [{ q: [] }] }]);
+      twins.push([`{ a: string; z: [number, { b: 1; [x: string]: ${v} }] }`, `{ a: string; z: [number, { b: 1 }]; [x: string]: ${v} }`, { a: "s", z: [1, { b: 1, q: [] }] }]);
+    }
+    twins.push(["{ z: { y: 1 }; zz: 2 }", "{ z: { y: 1; zz: 2 } }", { z: { y: 1 }, zz: 2 }]);
+    twins.push(["{ ab: { c: 1 } }", "{ a: { bc: 1 } }", { ab: { c: 1 } }]);
+    twins.push(['"ab" | "c"', '"a" | "bc"', "ab"]);
+    twins.push(["Array<string | number> | boolean", "Array<string | number | boolean>", true]);
+    twins.push(["[[string, number], boolean]", "[[string, number, boolean]]", [["a", 1], true]]);
+    twins.push(["[string, ...number[]]", "[string, number[]]", ["a", 1]]);
+    twins.push(["{ a: { b: string }[] }", "{ a: { b: string[] } }", { a: [{ b: "x" }] }]);
+    twins.push(["{ a?: { b: string } }", "{ a: { b?: string } }", {}]);
+    twins.push(["Map<string, Set<number>>", "Map<Set<string>, number>", new Map([["k", new Set([1])]])]);
+    twins.push(["{ a: string } & { b: number }", "{ a: string; b: number } & {}", { a: "s", b: 1, c: 2 }]);
+    twins.push(["{ t: `a${string}` ; u: `b` }", "{ t: `a`; u: `${string}b` }", { t: "ax", u: "b" }]);
+    for (const [t1, t2, w] of twins) {
+      const text = `type A = ${t1};\ntype B = ${t2};\nexport const Parsers = parse.buildParsers<{ A: A; B: B }>();\n`;
+      const r = await compileText(ctx, text);
+      ctx.judged();
+      ctx.count("encoding_boundary_twins");
+      if (!r.parsers) continue;
+      let va, vb;
+      try {
+        va = r.parsers.A.validate(w);
+        vb = r.parsers.B.validate(w);
+      } catch {
+        continue;
+      }
+      const strictDiffers = (() => { try { return r.parsers.A.validate(w, { disallowExtraProperties: true }) !== r.parsers.B.validate(w, { disallowExtraProperties: true }); } catch { return false; } })();
+      if ((va !== vb || strictDiffers) && r.parsers.A.hash256() === r.parsers.B.hash256())
+        ctx.violation({ signature: `twins-that-differ-in-nesting-share-a-digest|${t1.replace(/[a-z"0-9 ]+/g, "").slice(0, 30)}`, clause: "behaviour-implies-digest", detail: `${t1}  vs  ${t2} disagree on ${show(w)} but share hash256 ${r.parsers.A.hash256().slice(0, 16)}`, replay: { kind: "note", text } });
+    }
+  }
+
   // named types registered at run time (createNamedType / overrideNamedType): a digest is a function
   // of the CURRENT structure - a parser hashed before an override reports, after it, what a parser
   // built after the override reports; and when the override changes what is accepted, the digest moves
